@@ -43,6 +43,8 @@ type pair struct {
 	fixed    int  // 1, 2: the catalogue pairs; 0: random
 }
 
+const compactKey = "unknown.write: a struct inside an unknown field is written without WriteStructBegin — TCompactProtocol panics|old: struct S {…} new: + 12: optional list<E> path|value: path=[E{k:1}]|keep_unknown_fields, Write over TCompactProtocol"
+
 const unionKey = "keep_unknown_fields: union carrying an unknown member cannot be re-written|old: union U {1: i32 a}|new: union U {1: i32 a, 2: string b}|value: U{b:\"hi\"}|bytes 0b000200000002686900"
 
 // cataloguePair: the minimal pair, identical for every seed.
@@ -92,6 +94,7 @@ type chainRun struct {
 	norm    *values.Value
 	chain   []int
 	step    int
+	orig    []byte // bytes the new code wrote
 	cur     []byte // bytes entering the next hop
 	dropped bool   // a hop through old code WITHOUT keep_unknown_fields happened
 	uum     bool   // the value holds a union object whose set member the old schema does not know
@@ -288,6 +291,9 @@ func canonAnswer(ans string) string {
 	}
 	return ans
 }
+
+// hugeSizes: element counts of the huge unknown containers (set by the tier)
+var hugeSizes = []int{32768}
 
 func runPairs(repo, work string, r *vl.Rng, npairs, nvalues int, out *vl.Out) (*batch.Built, error) {
 	cfg := idlgen.DefaultConfig()
@@ -487,7 +493,7 @@ func runPairs(repo, work string, r *vl.Rng, npairs, nvalues int, out *vl.Out) (*
 		}
 		first := true
 		for _, ch := range picks {
-			c := &chainRun{p: w.p, sidx: w.sidx, v: w.v, norm: norm, chain: ch, cur: raw, uum: uum}
+			c := &chainRun{p: w.p, sidx: w.sidx, v: w.v, norm: norm, chain: ch, cur: raw, orig: raw, uum: uum}
 			chains = append(chains, c)
 			if first {
 				for _, role := range []int{roleOldPlain, roleOldKeep} {
@@ -659,6 +665,111 @@ func runPairs(repo, work string, r *vl.Rng, npairs, nvalues int, out *vl.Out) (*
 			}
 			c.cur = next
 			c.step++
+		}
+	}
+	// ---- compact-protocol hop (oracle only, not sent to the model): one per value through the old code with
+	// keep_unknown_fields: Read(binary) → Write(TCompactProtocol) → Read(TCompactProtocol) → Write(binary); then the NEW
+	// code reads the result (its Read ignores container header type bytes, which the compact protocol does not keep for
+	// empty maps) and the dump must be the original value
+	{
+		var cl []string
+		var cc []*chainRun
+		seen := map[string]bool{}
+		for _, c := range chains {
+			k := fmt.Sprintf("%d/%d/%p", c.p.idx, c.sidx, c.v)
+			if seen[k] || c.uum {
+				continue
+			}
+			seen[k] = true
+			cl = append(cl, fmt.Sprintf("HC %s:%d %s", c.p.units[roleOldKeep].Key, c.sidx, hexOrDash(c.orig)))
+			cc = append(cc, c)
+		}
+		ca, err := b.RunLines(cl)
+		if err != nil {
+			return b, err
+		}
+		var rl2 []string
+		var rc2 []*chainRun
+		for i, c := range cc {
+			out.Count("b.op.HC")
+			toks := strings.Fields(ca[i])
+			if len(toks) != 3 || toks[0] != "ok" {
+				known := ca[i] == "panic"
+				if known {
+					out.Count("b.finding.compact-struct-in-unknown-field")
+				}
+				report(c, "hop through TCompactProtocol failed: "+ca[i]+" (Read and Write of compatible data must succeed over every protocol)", cl[i], ca[i], false)
+				if known {
+					out.Oracle[len(out.Oracle)-1].Key = compactKey
+				}
+				continue
+			}
+			rl2 = append(rl2, fmt.Sprintf("R %s:%d %s", c.p.units[roleNewPlain].Key, c.sidx, toks[1]))
+			rc2 = append(rc2, c)
+		}
+		ra2, err := b.RunLines(rl2)
+		if err != nil {
+			return b, err
+		}
+		for i, c := range rc2 {
+			want := c.norm
+			if !strings.HasPrefix(ra2[i], "ok ") {
+				report(c, "the new code cannot read what came back from the compact-protocol hop", rl2[i], ra2[i], false)
+				continue
+			}
+			got, err := values.Parse(ra2[i][3:])
+			if err != nil {
+				continue
+			}
+			if n1, err := refcodec.Normal(c.p.newS, c.sidx, got); err == nil {
+				got = n1
+			}
+			if n2, err := refcodec.Normal(c.p.newS, c.sidx, want); err == nil {
+				want = n2
+			}
+			if !refcodec.Equal(got, want) {
+				report(c, "after a hop through TCompactProtocol the new code reads "+got.String()+", expected "+want.String(), rl2[i], ra2[i], false)
+				continue
+			}
+			out.Count("b.oracle.ok.HC")
+		}
+	}
+	// ---- huge unknown containers (oracle only: the Lean model's byte lists make such lines too slow; what the model
+	// says about them is theorem unknown_append_write: identity — which is what the oracle checks)
+	for _, p := range usable {
+		if p.fixed != 2 {
+			continue
+		}
+		for _, hv := range hugeValues(hugeSizes) {
+			enc, err := refcodec.Encode(p.newS, 2, hv.v)
+			if err != nil {
+				return b, fmt.Errorf("huge value does not encode: %v", err)
+			}
+			norm, err := refcodec.Decode(p.newS, 2, enc)
+			if err != nil {
+				return b, err
+			}
+			c := &chainRun{p: p, sidx: 2, v: values.Record(values.Str(hv.name)), norm: norm, chain: hv.chain, cur: enc, orig: enc}
+			for c.step < len(c.chain) {
+				line := fmt.Sprintf("H %s:%d %s", p.units[c.chain[c.step]].Key, 2, hexOrDash(c.cur))
+				ha, err := b.RunLines([]string{line})
+				if err != nil {
+					return b, err
+				}
+				out.Count("b.op.H.huge." + hv.name)
+				next, msg, _ := judgeHop(c, ha[0], out.Count)
+				if msg != "" {
+					fails++
+					out.Fail(vl.OracleFail{Key: "huge unknown container|" + hv.name + "|" + c.id(), What: msg,
+						Input:    map[string]string{"value": hv.name + " of catalogue pair 2 (harness/cmd/c09/catalogue2.go), struct S", "chain": c.id(), "op": line[:200] + "…"},
+						Expected: "ok, the unknown field re-written byte for byte", Observed: fmt.Sprintf("%.300s", ha[0])})
+				}
+				if next == nil {
+					break
+				}
+				c.cur = next
+				c.step++
+			}
 		}
 	}
 	out.Stats["b.pairs"] = len(pairs)
